@@ -137,8 +137,20 @@ def check_ids(run, ids):
     if len(set(ids)) != len(ids):
         run.diverge("session-id duplicate", "an id was issued twice among %d ids" % len(ids), rp)
         return
+    n = min(len(i) for i in ids)
+    alphabet = {c for i in ids for c in i[:n]}
+    if len(ids) >= 20 * len(alphabet):
+        # an upper bound of the entropy an id carries: a character position at which only d of the alphabet's symbols ever
+        # appear over that many ids carries at most log2(d) bits (with >= 20 ids per symbol a symbol missing by chance is out of the question)
+        import math
+        per = [len({i[p] for i in ids}) for p in range(n)]
+        bits = sum(math.log2(d) for d in per)
+        if bits < 128:
+            short = {p: per[p] for p in range(n) if per[p] < len(alphabet)}
+            run.diverge("session-id entropy-below-128-bits", "over %d ids the character positions carry at most %.1f bits: positions with fewer symbols than the alphabet's %d: %s; e.g. %s"
+                        % (len(ids), bits, len(alphabet), short, ids[:3]), rp)
+            return
     if len(ids) >= 20:
-        n = min(len(i) for i in ids)
         poor = [p for p in range(n) if len({i[p] for i in ids}) < 3]
         if len(poor) > n // 4:
             run.diverge("session-id low-diversity", "%d of %d character positions (almost) never vary over %d ids, e.g. %s"
@@ -241,6 +253,11 @@ def run(tier, replay=None):
                 rps[p["id"]] = {"cmd": ["c04"], "input": {"config": cfg, "paths": [{"id": p["id"], "steps": p["steps"]}]}}
                 if len(run_.samples) < 2 and cfg["mode"] == "stateful" and len(p["steps"]) > 6:
                     run_.sample({"config": cfg, "steps": p["steps"][:12], "observed": res["obs"][:12]})
+    # enough ids for the per-position entropy bound (>= 20 per symbol of the alphabet), issued by one server
+    hv = common.run_harness_json(["c04"], {"harvest": 1500}, timeout=300)
+    if len(hv["ids"]) < 1500:
+        raise common.Broken("only %d of 1500 initialize requests were answered with a session id" % len(hv["ids"]))
+    issued += hv["ids"]
     check_ids(run_, issued)
     rej = {}
     for mode in ("stateful", "stateless", "nosession"):
@@ -258,6 +275,6 @@ def run(tier, replay=None):
     run_.rule = ("walks = edge cover of the SessionLifecycle state graph (every operation x header class x state) for each of 12 "
                  "configurations (+ random walks in the thorough tier); non-trivial = walks containing a request with a deleted / "
                  "never-issued id, a GET, a DELETE or a session issue")
-    run_.assumptions = ["the entropy SOURCE of session ids is not observable; format, length, uniqueness and positional diversity are",
+    run_.assumptions = ["the entropy SOURCE of session ids is not observable; format, length, uniqueness and a per-position upper bound of the entropy (sum of log2 of the symbols seen at each position, >= 20 ids per symbol) are",
                         "the 1-hour expiry sweep is modelled as an environment action (TLC only), not bound"]
     return run_.finish()
